@@ -63,6 +63,9 @@ Ltac it_step :=
   | |- context [bind (Ok _) _] => rewrite !bind_Ok_l
   | |- context [if eqb ?nb zero then Ok one else Ok ?nb] => rewrite (if_ok_nz nb)
   | |- bind ?e _ = bind ?e' _ => unify e e'; apply bind_ext; intros ?
+  (* conditionals in canonical orientation (SrcEqBase): `a <=? b` is `negb (b <? a)` on both sides, also under binders *)
+  | |- context [(?a <=? ?b)%nat] => rewrite (Nat.leb_antisym b a)
+  | |- context [if negb ?c then _ else _] => destruct c eqn:?; cbn [negb]
   | |- context [bind (if ?c then _ else _) _] => destruct c eqn:?
   | |- (if ?c then _ else _) = _ => destruct c eqn:?
   | |- _ = (if ?c then _ else _) => destruct c eqn:?
